@@ -403,7 +403,8 @@ TWIN_SHARE = 0.05
 
 
 def gen_case(rng, tier):
-    return _twin.maybe_wrap(rng, _gen_case(rng, tier), TWIN_SHARE, ok=lambda c: not (c.get('prog') or {}).get('before'))
+    return _twin.maybe_wrap(rng, _gen_case(rng, tier), TWIN_SHARE, gen_other=lambda r: _gen_case(r, tier),
+                            ok=lambda c: not (c.get('prog') or {}).get('before'))
 
 
 def run_case(case):
